@@ -2,6 +2,7 @@ package main
 
 import (
 	"fmt"
+	"go/token"
 	"go/types"
 	"sort"
 	"strings"
@@ -92,6 +93,44 @@ func c08Seeds(p *Prog, r *Report, t *Taint) map[*ssa.Function]lbl {
 	return seeds
 }
 
+// c08ByteHelper: an unexported function of package sm2 that handles byte strings without math/big (zero tests, range tests
+// and draws of nonces and keys factored out of the API functions): part of the constant-time layer like TestPrivateKey.
+// The API functions themselves and every helper that touches *big.Int are the math/big glue, which the statement leaves out.
+func c08ByteHelper(p *Prog, fn *ssa.Function) bool {
+	if fn == nil || fn.Pkg == nil || shortPkg(fn.Pkg.Pkg.Path()) != "sm2" || len(fn.Blocks) == 0 || token.IsExported(fn.Name()) || fn.Name() == "init" || fn.Signature.Recv() != nil {
+		return false
+	}
+	isBig := func(t types.Type) bool { return strings.Contains(t.String(), "math/big.") }
+	for _, prm := range fn.Params {
+		if isBig(prm.Type()) {
+			return false
+		}
+	}
+	res := fn.Signature.Results()
+	for i := 0; i < res.Len(); i++ {
+		if isBig(res.At(i).Type()) {
+			return false
+		}
+	}
+	for _, b := range fn.Blocks {
+		for _, in := range b.Instrs {
+			if v, ok := in.(ssa.Value); ok && isBig(v.Type()) {
+				return false
+			}
+			if c, ok := in.(ssa.CallInstruction); ok {
+				if cal := c.Common().StaticCallee(); cal != nil && cal.Pkg != nil && cal.Pkg.Pkg.Path() == "math/big" {
+					return false
+				}
+			}
+		}
+	}
+	return true
+}
+
+func c08InScopeFn(p *Prog, fn *ssa.Function) bool {
+	return c08InScope(p.FuncName(fn)) || c08ByteHelper(p, fn)
+}
+
 func c08InScope(name string) bool {
 	if name == "sm2.TestPrivateKey" {
 		return true
@@ -157,8 +196,7 @@ func c08Run(r *Report, p *Prog, arch string) {
 	inScope := 0
 	nBranch, nIndex := 0, 0
 	for _, fn := range p.RepoFuncs() {
-		name := p.FuncName(fn)
-		if !c08InScope(name) || len(fn.Blocks) == 0 {
+		if !c08InScopeFn(p, fn) || len(fn.Blocks) == 0 {
 			continue
 		}
 		for _, b := range fn.Blocks {
@@ -173,8 +211,7 @@ func c08Run(r *Report, p *Prog, arch string) {
 		}
 	}
 	for _, fn := range reached {
-		name := p.FuncName(fn)
-		if c08InScope(name) {
+		if c08InScopeFn(p, fn) {
 			inScope++
 		}
 	}
@@ -185,7 +222,7 @@ func c08Run(r *Report, p *Prog, arch string) {
 	for _, fn := range reached {
 		name := p.FuncName(fn)
 		sinks := act.ActiveSinks(fn)
-		if !c08InScope(name) {
+		if !c08InScopeFn(p, fn) {
 			continue
 		}
 		clean := true
@@ -199,6 +236,10 @@ func c08Run(r *Report, p *Prog, arch string) {
 				if s.verdictValue {
 					if why, ok := verdictSites[name]; ok {
 						r.Ok("VERDICT-SITE", key, pos, "branch on a declassified comparison result; verdict site: "+why)
+						continue
+					}
+					if c08ByteHelper(p, fn) && (s.verdictShape || earlyVerdictReturn(s.instr)) {
+						r.Ok("VERDICT-ENCODING", key, pos, "branch on a declassified comparison result in a byte-level helper of package sm2 that only selects a constant verdict (one arm returns constants at once, or everything behind it does)")
 						continue
 					}
 					r.Viol(string(s.kind), key, pos, "branch on a comparison of secret data (via "+via+") outside the table of accept/reject verdict sites: control flow depends on the secret")
@@ -253,10 +294,41 @@ func c08Run(r *Report, p *Prog, arch string) {
 	}
 	var names []string
 	for _, fn := range reached {
-		if c08InScope(p.FuncName(fn)) {
+		if c08InScopeFn(p, fn) {
 			names = append(names, p.FuncName(fn))
 		}
 	}
 	sort.Strings(names)
 	r.Note("[%s] functions in the tainted call tree (%d): %s", arch, len(names), strings.Join(names, ", "))
+}
+
+// earlyVerdictReturn: one arm of the branch is a block that does nothing but return constants (an early reject/accept)
+func earlyVerdictReturn(in ssa.Instruction) bool {
+	iff, ok := in.(*ssa.If)
+	if !ok {
+		return false
+	}
+	for _, s := range iff.Block().Succs {
+		if len(s.Preds) != 1 {
+			continue
+		}
+		only := true
+		for _, i2 := range s.Instrs {
+			switch y := i2.(type) {
+			case *ssa.DebugRef:
+			case *ssa.Return:
+				for _, rv := range retVals(y) {
+					if !isConst(rv) {
+						only = false
+					}
+				}
+			default:
+				only = false
+			}
+		}
+		if only {
+			return true
+		}
+	}
+	return false
 }
